@@ -23,6 +23,9 @@ def run(ctx):
     nontrivial = lambda p: any(s["a"][0] in ("invalidate", "reconsider") for s in p["steps"]) or len({s["a"][1] for s in p["steps"] if s["a"][0] == "mine"}) > 1
     name = "c09q" if ctx.tier == "quick" else "c09t"
     pa, pr = _utxochain.run_scenario(ctx, binary, "MC_spend", "MCO_spend", name, RELEVANT, nontrivial)
+    if ctx.tier == "quick":
+        # coins whose script has exactly the largest size that still enters the UTXO set (10000 bytes), spent and restored across reorgs
+        _utxochain.run_scenario(ctx, binary, "MC_spend", "MCO_spend", "c09big", RELEVANT, nontrivial)
     if not pa.get("invalidate") or not pa.get("reconsider"):
         raise vflib.InfraError("vacuity: invalidate/reconsider never taken")
     ctx.assumptions += ["bounded scenario: base chain of 101 blocks, <= 3 (quick) / 4 (thorough) new blocks on any parents, invalidate/reconsider as reorg drivers"]
